@@ -295,6 +295,8 @@ type mapTable struct {
 	Assigns []*ssa.Store // stores of a map value into the variable itself
 	// keys added by a helper the map is handed to (call-site sensitive): helper(m, k1, k2, ...) { m[k] = v }
 	HelperKeys []string
+	// membership tests made by a helper the map is handed to: set.has(k)
+	LookupCalls []*ssa.Call
 }
 
 func (p *Prog) mapTableOf(g *ssa.Global, f *types.Var) mapTable {
@@ -350,6 +352,10 @@ func (p *Prog) mapTableOf(g *ssa.Global, f *types.Var) mapTable {
 						t.HelperKeys = append(t.HelperKeys, keys...)
 						continue
 					}
+					if p.helperIsLookup(x, ai) {
+						t.LookupCalls = append(t.LookupCalls, x)
+						continue
+					}
 					t.Escapes = append(t.Escapes, in)
 				}
 			case *ssa.Return:
@@ -362,6 +368,26 @@ func (p *Prog) mapTableOf(g *ssa.Global, f *types.Var) mapTable {
 				// reading
 			}
 		})
+	}
+	// a table written as a composite literal: the entries are stored into the fresh map before it is assigned
+	for _, st := range t.Assigns {
+		mk, ok := st.Val.(*ssa.MakeMap)
+		if !ok {
+			continue
+		}
+		for _, r := range *mk.Referrers() {
+			switch x := r.(type) {
+			case *ssa.MapUpdate:
+				if x.Map == ssa.Value(mk) {
+					t.Updates = append(t.Updates, x)
+				}
+			case *ssa.Store, *ssa.DebugRef:
+			default:
+				if in, ok := r.(ssa.Instruction); ok && in != ssa.Instruction(st) {
+					t.Escapes = append(t.Escapes, in)
+				}
+			}
+		}
 	}
 	return t
 }
@@ -438,6 +464,12 @@ func (p *Prog) helperMapKeys(call *ssa.Call, mi int) ([]string, bool) {
 				ks = append(ks, es...)
 			}
 			if !kok {
+				// the key itself is the argument: set.add(k)
+				if _, isStr := call.Call.Args[ki].Type().Underlying().(*types.Basic); isStr {
+					ks, kok, _ = p.strSet(call.Call.Args[ki], 0)
+				}
+			}
+			if !kok {
 				ok = false
 				continue
 			}
@@ -452,6 +484,32 @@ func (p *Prog) helperMapKeys(call *ssa.Call, mi int) ([]string, bool) {
 		}
 	}
 	return keys, ok && n > 0
+}
+
+// helperIsLookup: the callee of call only looks its map parameter mi up (comma-ok or plain) and does nothing else with
+// it: set.has(k).
+func (p *Prog) helperIsLookup(call *ssa.Call, mi int) bool {
+	g := calleeFn(call.Common())
+	if g == nil || !isModFn(g) || g.Blocks == nil || mi >= len(g.Params) {
+		return false
+	}
+	n := 0
+	for _, r := range *g.Params[mi].Referrers() {
+		switch x := r.(type) {
+		case *ssa.Lookup:
+			if x.X != ssa.Value(g.Params[mi]) {
+				return false
+			}
+			if _, isPrm := stripConv(x.Index).(*ssa.Parameter); !isPrm {
+				return false
+			}
+			n++
+		case *ssa.DebugRef:
+		default:
+			return false
+		}
+	}
+	return n > 0
 }
 
 // globalIntTable: the entries of a package-level map[string]<int> that is filled only by its initialiser (a composite
